@@ -3,6 +3,10 @@
 import json, sys
 pid, wt = sys.argv[1], sys.argv[2]
 n = int(sys.argv[3]) if len(sys.argv) > 3 else 3
+start = int(sys.argv[4]) if len(sys.argv) > 4 else 1
+import glob
+prev = [json.load(open(f)).get('summary', '') for f in sorted(glob.glob('/verif/seeded/%s-m*/meta.json' % pid))]
+avoid = ("\n\nChanges of these kinds were already produced by someone else for this property; do something DIFFERENT in mechanism and location:\n" + "\n".join("  - " + x for x in prev) + "\n") if prev and start > 1 else ""
 p = [json.loads(l) for l in open('/verif/properties.jsonl') if json.loads(l)['id'] == pid][0]
 print(f"""You are helping to evaluate a verification tool by planting realistic defects in a Go code base. You have your own scratch git worktree of the openGemini repository (a distributed time-series database) at {wt} (branch detached at the pinned commit). Work ONLY inside {wt} (and, for notes, {wt}/SEED/). Do not read or write anything under /verif or /repo (they are off limits; everything you need is in your worktree). Environment: per shell call `export GOFLAGS=-mod=mod GOPROXY=off` (do NOT set GOTOOLCHAIN or GOSUMDB); the sandbox is offline; `go build ./...` and `go test ./pkg/...` work from the worktree.
 
@@ -16,8 +20,8 @@ The semantic property under study (the system is supposed to satisfy it):
 Task: produce {n} DIFFERENT small changes to the openGemini source (each independent of the others, each a separate patch against the pinned commit) that BREAK this property, such that with the change applied
   (a) the repository still compiles (`go build ./...` in the affected packages, and `go vet` is not required),
   (b) the existing unit tests of the affected packages still pass (`go test -count=1 ./<affected packages>/...`; run them; if a test fails, pick a different change), and
-  (c) the breakage needs something SPECIFIC to manifest - a particular interleaving, a crash or fault at a particular point, a multi-step sequence of operations, an unusual input or boundary value, or two cooperating sites that each look fine alone - not something ordinary use would expose at once. Make them the kind of mistake a competent developer could plausibly make in a refactor or "optimisation" (off-by-one at a boundary, a dropped special case, a reordered step, a stale cache, a missing copy of a field, a wrong comparison operator, a lost error), not sabotage that disables a feature wholesale. Aim for variety: different files / mechanisms among the {n} changes. Do not touch *_test.go files or files with a `//go:build verif` tag in the patches.
-For each change i = 1..{n} write into {wt}/SEED/m<i>/ :
+  (c) the breakage needs something SPECIFIC to manifest - a particular interleaving, a crash or fault at a particular point, a multi-step sequence of operations, an unusual input or boundary value, or two cooperating sites that each look fine alone - not something ordinary use would expose at once. Make them the kind of mistake a competent developer could plausibly make in a refactor or "optimisation" (off-by-one at a boundary, a dropped special case, a reordered step, a stale cache, a missing copy of a field, a wrong comparison operator, a lost error), not sabotage that disables a feature wholesale. Aim for variety: different files / mechanisms among the {n} changes.{avoid} Do not touch *_test.go files or files with a `//go:build verif` tag in the patches.
+For each change i = {start}..{start+n-1} write into {wt}/SEED/m<i>/ :
   - patch.diff : `git diff` output against the pinned commit (apply-able with `git apply` at the repository root; only the source change, not the demonstration),
   - a demonstration: a Go test file or small program (say where it must be placed in the tree and the exact command to run it) that FAILS with the change applied and PASSES without it, showing the property's statement being violated (e.g. an acknowledged point not returned, a wrong value decoded, a shard deleted too early ...). Run it both ways yourself and record the two outputs.
   - meta.json : {{"property": "{pid}", "summary": "<one line>", "mechanism": "<what was changed and why it breaks the property>", "needs": "<what specific input/sequence/interleaving/crash point is needed to manifest>", "files_changed": [...], "tests_run": ["<commands you ran with the change applied and their pass/fail>"], "demo": {{"path_in_tree": "...", "command": "...", "fails_with_change": true, "passes_without": true}}}}
